@@ -176,6 +176,9 @@ class AttributedItem {
  * Base class for all kinds of data fields.
  */
 class DataField : public AttributedItem {
+#ifdef EBUSD_VERIF
+  friend struct VerifAccess;  // verification harness access (no behaviour change)
+#endif
  public:
   /**
    * Constructs a new instance.
@@ -377,6 +380,9 @@ class DataField : public AttributedItem {
  * A single @a DataField holding a value.
  */
 class SingleDataField : public DataField {
+#ifdef EBUSD_VERIF
+  friend struct VerifAccess;  // verification harness access (no behaviour change)
+#endif
  public:
   /**
    * Constructs a new instance.
@@ -659,6 +665,9 @@ class ConstantDataField : public SingleDataField {
  * A set of @a DataField instances.
  */
 class DataFieldSet : public DataField {
+#ifdef EBUSD_VERIF
+  friend struct VerifAccess;  // verification harness access (no behaviour change)
+#endif
   friend class LoadableDataFieldSet;
  public:
   /**
